@@ -2,13 +2,6 @@
 use crate::fw::*;
 use bp7::helpers::{hexify, unhexify};
 
-pub struct Exec {
-    pub imp: String,
-    pub oracle_fail: Option<String>,
-    pub known_key: String,
-    pub nontrivial: bool,
-}
-
 fn is_even_hex(s: &str) -> bool {
     s.len() % 2 == 0 && s.bytes().all(|b| b.is_ascii_hexdigit())
 }
@@ -21,12 +14,10 @@ pub fn exec(line: &str) -> Option<Exec> {
             let s = hexify(&b);
             let back = no_panic(|| unhexify(&s));
             let ok = matches!(&back, Some(Ok(v)) if *v == b);
-            Some(Exec {
-                imp: format!("ok {}", hex(s.as_bytes())),
-                oracle_fail: if ok { None } else { Some(format!("unhexify(hexify(b)) = {:?} != Ok(b)", back)) },
-                known_key: String::new(),
-                nontrivial: !b.is_empty(),
-            })
+            let mut e = Exec::new(format!("ok {}", hex(s.as_bytes())));
+            e.oracle_fail = if ok { None } else { Some(format!("unhexify(hexify(b)) = {:?} != Ok(b)", back)) };
+            e.nontrivial = !b.is_empty();
+            Some(e)
         }
         ["hex.dec", h] => {
             let b = unhex(h)?;
@@ -49,7 +40,10 @@ pub fn exec(line: &str) -> Option<Exec> {
                     Some(Ok(v)) => Some(format!("malformed string {:?} accepted as {:?}", s, v)),
                 }
             };
-            Some(Exec { imp, oracle_fail: fail, known_key: String::new(), nontrivial: s.len() >= 2 })
+            let mut e = Exec::new(imp);
+            e.oracle_fail = fail;
+            e.nontrivial = s.len() >= 2;
+            Some(e)
         }
         _ => None,
     }
